@@ -98,13 +98,14 @@ def register_teardown(reg):
             "ghost('td.n') == old(ghost('td.n')) + old(len({d})) and forall_key(lambda k: implies(old(k in {d}), "
             "same(ghost('td.plug')[old(ghost('td.n')) + old(keypos({d}, k))], old(content({d}))[k])))".format(d=byt))
   c.ensures('maps_cleared', 'len(self._plugs_by_type) == 0 and len(self._plugs_by_name) == 0')
-  c.modifies('dict(self._plugs_by_type)', 'dict(self._plugs_by_name)', 'threading.Thread.alive', '_PlugTearDownThread._plug')
+  # (while the tearDown threads run, another thread - the operator's abort - may set event flags)
+  c.modifies('dict(self._plugs_by_type)', 'dict(self._plugs_by_name)', 'threading.Thread.alive', '_PlugTearDownThread._plug', 'event.flag')
   c.loop('for (plug_type, plug_instance) in self._plugs_by_type.items()',
          inv=[('one_thread_per_instance_so_far',
                "ghost('td.n') == old(ghost('td.n')) + _i and forall_key(lambda k: implies(k in {d} and keypos({d}, k) < _i, "
                "same(ghost('td.plug')[old(ghost('td.n')) + keypos({d}, k)], {d}[k])))".format(d=byt)),
               ('earlier_log_kept', "forall_int(lambda j: implies(0 <= j and j < old(ghost('td.n')), same(ghost('td.plug')[j], old(ghost('td.plug'))[j])))")],
-         modifies=['threading.Thread.alive', '_PlugTearDownThread._plug'])
+         modifies=['threading.Thread.alive', '_PlugTearDownThread._plug', 'event.flag'])
 
 
 def ctor_log(c):
@@ -148,7 +149,7 @@ def register_init(reg):
             'forall_key(lambda k: implies(old(k in {t}), k in {t} and same({t}[k], old(content({t}))[k])))'.format(t=byt))
   c.raises('Exception', ensures=[('everything_constructed_so_far_is_torn_down', 'len(%s) == 0 and len(%s) == 0' % (byt, byn))])
   c.modifies('dict(%s)' % byt, 'dict(%s)' % byn, 'dict(self._plug_descriptors)', 'dict(self._plug_types)', 'opaque:plug_type.logger', 'opaque:plug.logger',
-             'threading.Thread.alive', '_PlugTearDownThread._plug')
+             'threading.Thread.alive', '_PlugTearDownThread._plug', 'event.flag')
   inv = [('log_grows', "%s >= %s and ghost('td.n') >= 0" % (n1, n0)),
          ('only_the_requested_plug_types_are_constructed',
           "forall_int(lambda j: implies(%s, (ghost('ctor.type')[j] in plug_types) if plug_types is not None else (ghost('ctor.type')[j] in old(content(self._plug_types)))))" % new),
@@ -177,4 +178,4 @@ def register_executor_side(reg):
   c.modifies('self._last_outcome', 'self._last_execution_unit', 'dict(self.test_state.plug_manager._plugs_by_type)',
              'dict(self.test_state.plug_manager._plugs_by_name)', 'dict(self.test_state.plug_manager._plug_descriptors)',
              'dict(self.test_state.plug_manager._plug_types)', 'opaque:plug_type.logger', 'opaque:plug.logger',
-             'threading.Thread.alive', '_PlugTearDownThread._plug')
+             'threading.Thread.alive', '_PlugTearDownThread._plug', 'event.flag')
